@@ -202,6 +202,17 @@ func (in *Interp) retType(fn *ssa.Function) types.Type {
 }
 
 func (in *Interp) callFunction(fn *ssa.Function, args []Value, binds []Value, cc *ssa.CallCommon) Value {
+	// bodies of dependency packages are built lazily; Build blocks until the package is complete
+	// (another worker may be building it right now, fn.Blocks must not be read before that)
+	if fn.Pkg != nil && !in.built[fn.Pkg] {
+		fn.Pkg.Build()
+		in.built[fn.Pkg] = true
+	} else if fn.Pkg == nil {
+		if o := fn.Origin(); o != nil && o.Pkg != nil && !in.built[o.Pkg] {
+			o.Pkg.Build()
+			in.built[o.Pkg] = true
+		}
+	}
 	names := in.matchNames(fn)
 	if in.lenient > 0 && fn.Synthetic == "package initializer" {
 		return nil
